@@ -155,8 +155,10 @@ func c11ResumeStage(env *verifEnv, res *verifResult, keys *verifKeys, roleCA *x5
 					// a fresh certificate per sequence (the shape of the failing sequence is then exact), and every third
 					// sequence one certificate shared by all of them (its history holds every earlier use)
 					var cert *x509.Certificate
+					earlier := "" // the certificate has been used before this sequence
 					if (si+oi)%3 == 2 && shared != nil {
 						cert = shared
+						earlier = "earlier-uses,"
 					} else {
 						cert = mint(raw)
 						if cert == nil {
@@ -182,14 +184,14 @@ func c11ResumeStage(env *verifEnv, res *verifResult, keys *verifKeys, roleCA *x5
 						rr, pan := env.serve(req) // immediately after the previous step
 						admitted := rr.Code == 200
 						anyResumed = anyResumed || st.resumed
-						prefix := c11ShapeName(shape[:ti+1])
+						prefix := earlier + c11ShapeName(shape[:ti+1])
 						should := st.inside && !st.unverified
 						res.eval(fmt.Sprintf("seq|%s|%v|%s|%s|%v", route.name, raw, prefix, peer.addr, admitted), should || st.resumed)
 						res.bump("sequence-step")
 						if st.resumed {
 							res.bump("sequence-step-resumed")
 						}
-						cs := map[string]interface{}{"route": route.name, "blocks": fmt.Sprint(raw), "identity": identity, "sequence": c11ShapeName(shape), "failing_step": ti,
+						cs := map[string]interface{}{"route": route.name, "blocks": fmt.Sprint(raw), "identity": identity, "sequence": earlier + c11ShapeName(shape), "failing_step": ti,
 							"inside_peer": inside.addr, "outside_peer": outside.addr, "peer": peer.addr, "did_resume": st.resumed, "verified_chain": !st.unverified, "status": rr.Code}
 						kind := "sequence"
 						if anyResumed {
@@ -210,7 +212,7 @@ func c11ResumeStage(env *verifEnv, res *verifResult, keys *verifKeys, roleCA *x5
 						notes = append(notes, fmt.Sprintf("%s peer=%s status=%d", st.name(), peer.addr, rr.Code))
 					}
 					cases = append(cases, "["+strings.Join(steps, "; ")+"]")
-					idx = append(idx, fmt.Sprintf("shape=%s route=%s blocks=%v steps=[%s]", c11ShapeName(shape), route.name, raw, strings.Join(notes, " | ")))
+					idx = append(idx, fmt.Sprintf("shape=%s route=%s blocks=%v steps=[%s]", earlier+c11ShapeName(shape), route.name, raw, strings.Join(notes, " | ")))
 				}
 			}
 		}
@@ -258,7 +260,7 @@ func c11RealTLSResume(env *verifEnv, res *verifResult, keys *verifKeys, mint fun
 			dialer := &net.Dialer{Timeout: 5 * time.Second, LocalAddr: &net.TCPAddr{IP: net.ParseIP(cn.from)}}
 			didResume := false
 			cfg := &tls.Config{InsecureSkipVerify: true, ClientSessionCache: cache, MaxVersion: c.maxV, ServerName: "keymaster.example",
-				Certificates: []tls.Certificate{{Certificate: [][]byte{cert.Raw}, PrivateKey: keys.ec}},
+				Certificates:     []tls.Certificate{{Certificate: [][]byte{cert.Raw}, PrivateKey: keys.ec}},
 				VerifyConnection: func(s tls.ConnectionState) error { didResume = s.DidResume; return nil }}
 			client := &http.Client{Transport: &http.Transport{DialContext: dialer.DialContext, TLSClientConfig: cfg, DisableKeepAlives: true},
 				CheckRedirect: func(*http.Request, []*http.Request) error { return http.ErrUseLastResponse }}
